@@ -79,33 +79,91 @@ def _tail_only(block):
     return block
 
 
-def _ends_in_return(block):
-    if not is_node(block) or block.get("k") != "block" or not block["stmts"]:
-        return None
-    last = block["stmts"][-1]
-    if last["k"] == "expr" and is_node(last["e"]) and last["e"].get("k") == "return" and last["e"].get("e") is not None:
-        return block["stmts"][:-1], last["e"]["e"]
-    return None
+def _has_return(n):
+    """a `return` of this function body occurs in n (closures are other bodies)"""
+    if isinstance(n, list):
+        return any(_has_return(x) for x in n)
+    if not isinstance(n, dict):
+        return False
+    if n.get("k") == "return":
+        return True
+    if n.get("k") == "closure":
+        return False
+    return any(_has_return(v) for k, v in n.items() if isinstance(v, (dict, list)) and k not in ("pat", "params", "ty", "path", "sig"))
+
+
+def _as_stmts(b):
+    """statements of a block used in statement position (its value, if any, is dropped)"""
+    if b is None:
+        return []
+    if is_node(b) and b.get("k") == "block":
+        out = []
+        for st in b["stmts"]:
+            if st.get("k") == "expr" and not st.get("semi"):
+                out.append(dict(st, semi=True))
+            else:
+                out.append(st)
+        return out
+    return [{"k": "expr", "e": b, "semi": True, "l": b.get("l", 0) if is_node(b) else 0}]
+
+
+def _seq(stmts, l=0):
+    """Block equivalent to the statement list in which no `return` is left: the code after a conditional that may return is copied into
+    its branches, a `return x` ends its branch with the value x (R1, general form)."""
+    out = []
+    for i, st in enumerate(stmts):
+        rest = stmts[i + 1 :]
+        if st.get("k") == "expr" and is_node(st["e"]):
+            e = st["e"]
+            if e.get("k") == "return":
+                if e.get("e") is not None:
+                    out.append({"k": "expr", "e": e["e"], "semi": False, "l": st.get("l", l)})
+                return {"k": "block", "l": l, "stmts": out}
+            value_pos = (not st.get("semi")) and not rest
+            if e.get("k") == "if" and _has_return(e):
+                then_s = (e["then"]["stmts"] if value_pos and is_node(e["then"]) and e["then"].get("k") == "block" else _as_stmts(e["then"])) + ([] if value_pos else rest)
+                els = e.get("else")
+                if value_pos:
+                    else_s = els["stmts"] if is_node(els) and els.get("k") == "block" else ([{"k": "expr", "e": els, "semi": False, "l": l}] if els is not None else [])
+                else:
+                    else_s = _as_stmts(els) + rest
+                new_if = dict(e, then=_seq(then_s, e.get("l", l)))
+                new_if["else"] = _seq(else_s, e.get("l", l))
+                out.append({"k": "expr", "e": new_if, "semi": False, "l": st.get("l", l)})
+                return {"k": "block", "l": l, "stmts": out}
+            if e.get("k") == "match" and _has_return(e.get("arms")):
+                arms = []
+                for a in e["arms"]:
+                    body = a["body"]
+                    if value_pos:
+                        bs = body["stmts"] if is_node(body) and body.get("k") == "block" else [{"k": "expr", "e": body, "semi": False, "l": a.get("l", l)}]
+                    else:
+                        bs = _as_stmts(body) + rest
+                    arms.append(dict(a, body=_seq(bs, a.get("l", l))))
+                out.append({"k": "expr", "e": dict(e, arms=arms), "semi": False, "l": st.get("l", l)})
+                return {"k": "block", "l": l, "stmts": out}
+        if st.get("k") == "let" and is_node(st.get("init")) and st["init"].get("k") == "match" and _has_return(st["init"].get("arms")):
+            # `let x = match e { P => v, _ => return r };` : the arms that return end the function, the others bind x
+            e = st["init"]
+            arms = []
+            for a in e["arms"]:
+                body = a["body"]
+                if _has_return(body):
+                    bs = body["stmts"] if is_node(body) and body.get("k") == "block" else [{"k": "expr", "e": body, "semi": False, "l": a.get("l", l)}]
+                    arms.append(dict(a, body=_seq(bs, a.get("l", l))))
+                else:
+                    arms.append(dict(a, body=_seq([dict(st, init=body)] + rest, a.get("l", l))))
+            out.append({"k": "expr", "e": dict(e, arms=arms), "semi": False, "l": st.get("l", l)})
+            return {"k": "block", "l": l, "stmts": out}
+        out.append(st)
+    return {"k": "block", "l": l, "stmts": out}
 
 
 def early_returns(block):
-    """R1 on the top-level statements of a body."""
-    if not is_node(block) or block.get("k") != "block":
+    """R1 on a function / closure body."""
+    if not is_node(block) or block.get("k") != "block" or not _has_return(block):
         return block
-    stmts = block["stmts"]
-    for i, st in enumerate(stmts):
-        if st["k"] == "expr" and is_node(st["e"]) and st["e"].get("k") == "if" and not st["e"].get("else"):
-            r = _ends_in_return(st["e"]["then"])
-            if r is not None and i < len(stmts) - 1:
-                lead, val = r
-                then_b = dict(st["e"]["then"], stmts=lead + [{"k": "expr", "e": val, "semi": False, "l": val.get("l", 0)}])
-                rest = early_returns(dict(block, stmts=stmts[i + 1 :]))
-                new_if = dict(st["e"], then=then_b)
-                new_if["else"] = rest
-                return dict(block, stmts=stmts[:i] + [{"k": "expr", "e": new_if, "semi": False, "l": st.get("l", 0)}])
-    if stmts and stmts[-1]["k"] == "expr" and is_node(stmts[-1]["e"]) and stmts[-1]["e"].get("k") == "return" and stmts[-1]["e"].get("e") is not None:
-        return dict(block, stmts=stmts[:-1] + [{"k": "expr", "e": stmts[-1]["e"]["e"], "semi": False, "l": stmts[-1].get("l", 0)}])
-    return block
+    return dict(_seq(block["stmts"], block.get("l", 0)), el=block.get("el"))
 
 
 class Canon:
